@@ -575,3 +575,6 @@ def run(ctx):
         c17.allow_list_reader_strict(ctx, r8)
     except AnchorMissing as e:
         r8.fail("C16.R8:anchor", "-", "-", "anchor-missing: %s" % e)
+    from . import c14
+    r9 = ctx.inst("C16.R9", "what the pair reports about its decimals can only be changed by the factory (shared with C14.R6): record and self-description stay equal after creation", floor=1)
+    compose.pull(ctx, r9, c14, {"C14.R6"}, "C16.R9")
